@@ -72,6 +72,9 @@ def norm_trace(trace, z, cfg, ids_as_names=True):
         if t.K == 'T':
             ident = names_of_ids(z, t.owner, [t.id])[0] if ids_as_names else t.id
         act = t.act
+        if t.K == 'N' and t.id in own and t.eid < 0:
+            # the machine's own entry behaviour at start(): backmp11 (re)initialises the active ids after it, back before it
+            act = None
         if act is not None and ids_as_names:
             act = ','.join(names_of_ids(z, t.owner, [int(v) for v in act.split(',')]))
         out.append((t.K, t.owner, ident, eid, t.serial, t.res, act))
